@@ -286,6 +286,11 @@ def raw_key_eq(ctx, a, b):
 def map_find(ctx, m, key):
     """index of the entry whose key equals `key`, or None"""
     ptr_keys = m.key_ty == "ptr"
+    if ptr_keys and type(key) is Ref:
+        # lookups pass `&K` where K is itself a raw pointer: compare the pointer values
+        inner = key.get()
+        if type(inner) is Ref:
+            key = inner
     for i, e in enumerate(m.entries):
         if ptr_keys:
             if raw_key_eq(ctx, e[0], key):
